@@ -9,7 +9,6 @@ package main
 
 import (
 	"fmt"
-	"time"
 
 	"verif/harness/vh"
 )
@@ -174,7 +173,7 @@ func nestedSweep(env *vh.Env, rep *vh.Report, rng *vh.Rng, self string) {
 		add("value", "list-of-maximal-text-arrays", big)
 	}
 	rep.Note("%d nesting bombs (1 KiB – 64 KiB)", len(cases))
-	res := runChildren(self, allocK, allocC, cases, 8, 30*time.Second)
+	res := runChildren(self, allocK, allocC, cases, 8, childPerCase)
 	// the model (drv_c04) is asked only about the small ones: its recursion is as deep as the nesting
 	var small, large []hcase
 	var rs, rl []hres
